@@ -31,10 +31,10 @@ PROPS = {
                 assumptions=["'collection has quiesced' = worker idle, no trigger queued, no goroutine runnable; bounded liveness budget 10 simulated seconds"]),
     "C15": dict(tiers(qr=300, qb=50, tr=6000, tb=900, timeout=300),
                 level="exploration",
-                level_text="Same node world, single client, capacity far above reach: around every pin / unpin / pinned upload the full pin index is dumped and the pin's measured effect (its delta on every chunk's count) is compared: first pin marks every stored chunk and lists the reference, a repeated pin changes nothing, an unpin subtracts exactly its pin's delta, a repeated unpin changes nothing, listing follows the last operation; also across clean restarts.",
-                rule="Histories of upload (with / without Aurora-Pin), cache (real download), POST / DELETE /pins/{ref} on files with shared and repeated chunks, restarts; oracle evaluated at quiescence before and after each pin-changing operation.",
-                probes=["c15_first_pin", "c15_repeat_pin", "c15_unpin", "c15_repeat_unpin", "restart"],
-                assumptions=["the effect of a pin is measured, not predicted: only idempotence and exact inversion are demanded", "an unpin that fails while the file is pinned makes the file uncertain (the statement is silent)"]),
+                level_text="Same node world, one client (plus the concurrent pin pairs of cpin): around every pin / unpin / pinned upload the full pin index is dumped and the pin's measured effect (its delta on every chunk's count) is compared: first pin marks every stored chunk and lists the reference, a repeated pin changes nothing, an unpin subtracts exactly its pin's delta, a repeated unpin changes nothing, listing follows the last operation; also across clean restarts.",
+                rule="Every file is made known first (upload or real download), then 3-8 operations per phase: 20 % pin, 20 % unpin, 18 % cpin (two stored, unpinned files pinned concurrently, every stored chunk pinned in between, then unpinned one after the other: all counts back at their value from before, neither listed), uploads with / without Aurora-Pin, downloads, deletes, collections, reads; a third of the runs use a hot chunk shared between files and repeated inside files; restarts. Oracle evaluated at quiescence (collection worker idle) before and after each pin-changing operation; an operation during which a collection removed chunks is not compared.",
+                probes=["c15_first_pin", "c15_repeat_pin", "c15_unpin", "c15_repeat_unpin", "c15_concurrent_pins", "restart"],
+                assumptions=["the effect of a pin is measured, not predicted: only idempotence and exact inversion are demanded", "an unpin of a pinned reference must succeed if every chunk of the reference was stored when it was pinned and is stored now, the file was not deleted through the API since (DELETE removes pin counters, not the listed reference) and no collection ran during the operation; any other failing unpin makes the file uncertain (the statement is silent)"]),
     "C17": dict(tiers(qr=300, qb=50, tr=6000, tb=900, timeout=300),
                 level="exploration",
                 level_text="Same node world (uploads, real downloads through discovery + retrieval, local reads under a file context, deletes, evictions, restarts with InitChunkInfo from the state store): at every quiescent barrier every availability record the node keeps for itself is compared bit by bit with the local store (bit i set => i-th data chunk in protocol order stored; all set => all stored), and after a delete no in-memory or persisted availability / discovery / source record of the file may remain.",
